@@ -3,11 +3,17 @@ package main
 // C20: replay of the link shapes enumerated by TLC from spec/DeeplinkDef.tla into deeplinks.Resolve.
 
 import (
+	"bytes"
 	"encoding/json"
+	"os"
+	"os/exec"
 	"flag"
 	"fmt"
 	"math/rand"
+	"runtime"
 	"strings"
+	"sync"
+	"sync/atomic"
 
 	"github.com/xelaj/mtproto/telegram/deeplinks"
 )
@@ -197,6 +203,92 @@ func init() {
 			}
 		}
 		rep.Distinct = len(distinct)
+		rep.Emit()
+	}
+}
+
+// `verif deeplinkconc`: the first resolutions of a process, from many goroutines released together (a resolver is a
+// function of its argument: whoever calls first, and whoever calls at the same time, gets the declared meaning).
+func init() {
+	commands["deeplinkconc"] = func(args []string) {
+		fs := flag.NewFlagSet("deeplinkconc", flag.ExitOnError)
+		seed := fs.Int64("seed", 1, "")
+		children := fs.Int("children", 0, "run this many fresh processes of this phase and add up what they report")
+		fs.Parse(args)
+		if *children > 0 {
+			self, err := os.Executable()
+			must(err)
+			total := NewReport()
+			for k := 0; k < *children; k++ {
+				cmd := exec.Command(self, "deeplinkconc", "-seed", fmt.Sprint(*seed*1000+int64(k)))
+				var so, se bytes.Buffer
+				cmd.Stdout, cmd.Stderr = &so, &se
+				if err := cmd.Run(); err != nil {
+					first := strings.SplitN(se.String(), "\n", 2)[0]
+					if strings.Contains(se.String(), "telegram/deeplinks") {
+						total.Disagree("process-died:first-use-under-concurrency", "96 goroutines resolving links as the first calls of the process: "+first, map[string]interface{}{"stderr": truncStr(se.String(), 2500)})
+						total.Evaluations++
+						continue
+					}
+					must(fmt.Errorf("child failed outside the library: %v: %s", err, truncStr(se.String(), 1500)))
+				}
+				var r Report
+				must(json.Unmarshal(so.Bytes(), &r))
+				total.Evaluations += r.Evaluations
+				for _, d := range r.Disagreements {
+					total.Disagree(d.Sig, d.Detail, d.Case)
+				}
+			}
+			total.Distinct = *children
+			total.Emit()
+			return
+		}
+		rng := rand.New(rand.NewSource(*seed))
+		rep := NewReport()
+		hosts := []string{"t.me", "telegram.me", "telegram.dog", "tx.me", "telesco.pe"}
+		type job struct{ link, wantKind, wantVal string }
+		var jobs []job
+		ng := runtime.NumCPU() // as many as can run at the same instant
+		if ng < 2 {
+			ng = 2
+		}
+		for g := 0; g < ng; g++ {
+			h := hosts[g%len(hosts)]
+			name := dlSegment("lower", rng)
+			switch g % 3 {
+			case 0:
+				jobs = append(jobs, job{"https://" + h + "/" + name, "user", name})
+			case 1:
+				jobs = append(jobs, job{h + "/joinchat/" + name, "invite", name})
+			default:
+				jobs = append(jobs, job{"http://" + h + ":443/" + name, "user", name})
+			}
+		}
+		var arrived, start int32
+		outs := make([]dlOutcome, len(jobs))
+		var wg sync.WaitGroup
+		for i := range jobs {
+			wg.Add(1)
+			go func(i int) {
+				defer wg.Done()
+				atomic.AddInt32(&arrived, 1)
+				for atomic.LoadInt32(&start) == 0 { // spin: all leave within nanoseconds of each other
+				}
+				outs[i] = dlRun(jobs[i].link)
+			}(i)
+		}
+		for atomic.LoadInt32(&arrived) < int32(len(jobs)) {
+			runtime.Gosched()
+		}
+		atomic.StoreInt32(&start, 1)
+		wg.Wait()
+		for i, j := range jobs {
+			rep.Evaluations++
+			if outs[i].Kind != j.wantKind || outs[i].Value != j.wantVal {
+				rep.Disagree("first-use-under-concurrency:"+j.wantKind, fmt.Sprintf("Resolve(%q) among the first calls of the process, made together with the others: %+v, declared %s %q", j.link, outs[i], j.wantKind, j.wantVal), map[string]interface{}{"link": j.link})
+			}
+		}
+		rep.Distinct = len(jobs)
 		rep.Emit()
 	}
 }
